@@ -170,6 +170,56 @@ Proof.
     rewrite !(peval_eq_peval_r K HK), (peval_r_padd K HK), (peval_r_pscale K HK), (Hwa id Hid). ring.
 Qed.
 
+(* conversion to additive shares over a quorum of >= deg+1 distinct holders: the values sum to cs_0 *)
+Definition fsumN (g : N -> F) (l : list N) : F := fold_right (fun i acc => g i + acc) 0 l.
+
+Lemma fsumN_ext_in : forall (g h : N -> F) l, (forall i, In i l -> g i = h i) -> fsumN g l = fsumN h l.
+Proof.
+  induction l as [|x l IH]; intros H; [reflexivity|]. cbn [fsumN fold_right].
+  rewrite (H x) by now left. fold (fsumN g l). fold (fsumN h l). rewrite IH; auto. intros; apply H; now right.
+Qed.
+
+Lemma dot_by_index_N : forall (g : N -> F) (Q : list N) (b : list F), NoDup Q -> length b = length Q ->
+  fsumN (fun id => match find_index (N.eqb id) Q with Some i => nth i b 0 | None => 0 end * g id) Q = dot K b (map g Q).
+Proof.
+  intros g Q; induction Q as [|q Q IH]; intros b Hnd Hl.
+  - destruct b; [reflexivity|discriminate].
+  - destruct b as [|c b]; [discriminate|]. inversion Hnd; subst. cbn [map]. rewrite (dot_cons K HK).
+    cbn [fsumN fold_right find_index]. rewrite N.eqb_refl. cbn [nth].
+    fold (fsumN (fun id => match (if N.eqb id q then Some O else match find_index (N.eqb id) Q with Some i => Some (S i) | None => None end) with Some i => nth i (c :: b) 0 | None => 0 end * g id) Q).
+    rewrite <- (IH b) by (auto; cbn in Hl; lia). f_equal.
+    apply fsumN_ext_in. intros id Hid.
+    destruct (N.eqb id q) eqn:E; [apply N.eqb_eq in E; subst; contradiction|].
+    destruct (find_index (N.eqb id) Q); reflexivity.
+Qed.
+
+Theorem shamir_to_additive_sums : forall cs Q,
+  (forall a b, In a Q -> In b Q -> fromN a = fromN b -> a = b) ->
+  NoDup Q -> (length cs <= length Q)%nat ->
+  exists f : N -> F,
+    (forall id, In id Q -> shamir_to_additive K fromN (id, poly_eval K cs (fromN id)) Q = Some (f id)) /\
+    fsumN f Q = nth 0 cs 0.
+Proof.
+  intros cs Q Hinj Hnd Hlen.
+  assert (EQ : nodupN Q = Q) by (apply nodup_fixed_point; exact Hnd).
+  assert (Hndn : NoDup (map fromN Q)) by (apply NoDup_map_inj_rev; auto).
+  set (b := basis_coeffs K (map fromN Q) 0).
+  exists (fun id => match find_index (N.eqb id) Q with Some i => nth i b 0 | None => 0 end * poly_eval K cs (fromN id)).
+  split.
+  - intros id Hid. unfold shamir_to_additive. rewrite EQ. unfold lagrange_basis_at.
+    rewrite (basis_at_NoDup K HK _ 0 Hndn). cbn [fst snd]. fold b.
+    destruct (find_index (N.eqb id) Q) as [i|] eqn:E; [reflexivity|]. exfalso.
+    clear -E Hid. induction Q as [|q Q IH]; [contradiction|]. cbn [find_index] in E.
+    destruct (N.eqb id q) eqn:Eq; [discriminate|]. destruct (find_index (N.eqb id) Q); [discriminate|].
+    destruct Hid as [->|Hid]; [rewrite N.eqb_refl in Eq; discriminate|auto].
+  - rewrite (dot_by_index_N (fun id => poly_eval K cs (fromN id)) Q b Hnd)
+      by (unfold b; now rewrite (basis_coeffs_length K), map_length).
+    assert (Ev : map (fun id => poly_eval K cs (fromN id)) Q = map (peval_r K cs) (map fromN Q)).
+    { rewrite map_map. apply map_ext. intros id. unfold poly_eval. apply (peval_eq_peval_r K HK). }
+    rewrite Ev. unfold b. rewrite (lagrange_dot_exact K HK (map fromN Q) cs 0 Hndn) by (rewrite map_length; lia).
+    rewrite <- (peval_eq_peval_r K HK). apply peval_nth0.
+Qed.
+
 End SchemesProofs.
 
 (* ---- ISN ------------------------------------------------------------------------------------------------ *)
@@ -179,6 +229,15 @@ Proof.
   inversion Hnd; subst. constructor.
   - intro Hin. apply in_app_or in Hin. destruct Hin as [Hin|[->|[]]]; [contradiction|]. apply Hni. now left.
   - apply IH; auto. intro; apply Hni; now right.
+Qed.
+
+Lemma in_combine_seq_nth : forall {A} (l : list A) s k (d : A), (k < length l)%nat ->
+  In ((s + k)%nat, nth k l d) (combine (seq s (length l)) l).
+Proof.
+  intros A l; induction l as [|a l IH]; intros s k d Hk; [cbn in Hk; lia|].
+  destruct k; cbn [length seq combine nth].
+  - left. now rewrite Nat.add_0_r.
+  - right. replace (s + S k)%nat with (S s + k)%nat by lia. apply IH. cbn in Hk. lia.
 Qed.
 
 Section IsnProofs.
@@ -380,6 +439,174 @@ Proof.
   rewrite Hsnd. rewrite (fsum_perm _ (map (fun k => nth k summands 0) (seq 0 (length summands)))).
   - now rewrite map_nth_seq.
   - now apply Permutation_map.
+Qed.
+
+(* ---- ISN: conversion to additive shares ------------------------------------------------------------------ *)
+
+Definition fsumn (g : nat -> F) (l : list nat) : F := fold_right (fun i acc => g i + acc) 0 l.
+
+Lemma fsumn_cons : forall (g : nat -> F) x l, fsumn g (x :: l) = g x + fsumn g l.
+Proof. reflexivity. Qed.
+
+Lemma fsumn_ext_in : forall (g h : nat -> F) l, (forall i, In i l -> g i = h i) -> fsumn g l = fsumn h l.
+Proof.
+  induction l as [|x l IH]; intros H; [reflexivity|]. cbn [fsumn fold_right].
+  rewrite (H x) by now left. fold (fsumn g l). fold (fsumn h l). rewrite IH; auto. intros; apply H; now right.
+Qed.
+
+Lemma fsumn_add : forall (g h : nat -> F) l, fsumn (fun i => g i + h i) l = fsumn g l + fsumn h l.
+Proof.
+  induction l as [|x l IH]; [cbn; ring|]. cbn [fsumn fold_right]. fold (fsumn (fun i => g i + h i) l).
+  fold (fsumn g l). fold (fsumn h l). rewrite IH. ring.
+Qed.
+
+Lemma fsumn_zero : forall l, fsumn (fun _ => 0) l = 0.
+Proof. induction l as [|x l IH]; [reflexivity|]. cbn [fsumn fold_right]. fold (fsumn (fun _ : nat => 0) l). rewrite IH. ring. Qed.
+
+Lemma fsumn_summands : forall (l : list F) s, fsumn (fun k => nth (k - s) l 0) (seq s (length l)) = fsum K l.
+Proof.
+  induction l as [|a l IH]; intros s; [reflexivity|]. cbn [length seq fsumn fold_right].
+  fold (fsumn (fun k => nth (k - s) (a :: l) 0) (seq (S s) (length l))). rewrite Nat.sub_diag. cbn [nth].
+  rewrite (fsum_cons K HK). f_equal. rewrite <- (IH (S s)). apply fsumn_ext_in. intros k Hk. apply in_seq in Hk.
+  replace (k - s)%nat with (S (k - S s)) by lia. reflexivity.
+Qed.
+
+(* the pivot of the k-th maximal unqualified set in a quorum: its smallest member outside the set *)
+Definition pivot_of (mus : list (list N)) (sq : list N) (k : nat) : option N :=
+  find (fun id => negb (memN id (nth k mus []))) sq.
+
+(* the fold of Share.ToAdditive in closed form *)
+Lemma isn_fold_closed : forall mus sq holder (chunks : list (nat * F)) a,
+  (forall kv, In kv chunks -> pivot_of mus sq (fst kv) <> None) ->
+  fold_left (fun acc kv =>
+    match acc with
+    | None => None
+    | Some v =>
+      match find (fun id => negb (memN id (nth (fst kv) mus []))) sq with
+      | None => None
+      | Some p => if N.eqb p holder then Some (v + snd kv) else Some v
+      end
+    end) chunks (Some a)
+  = Some (a + fold_right (fun kv acc =>
+              (match pivot_of mus sq (fst kv) with Some p => if N.eqb p holder then snd kv else 0 | None => 0 end) + acc) 0 chunks).
+Proof.
+  intros mus sq holder chunks; induction chunks as [|kv l IH]; intros a Hp; cbn [fold_left fold_right].
+  - f_equal. ring.
+  - assert (Hk := Hp kv (or_introl eq_refl)). unfold pivot_of in *.
+    destruct (find _ sq) as [p|] eqn:E; [|congruence].
+    destruct (N.eqb p holder); rewrite IH by (intros; apply Hp; now right); f_equal; ring.
+Qed.
+
+(* sum over the dealt chunks of a holder = sum over all k with an indicator *)
+Lemma dealt_chunks_sum : forall mus (summands : list F) id (G : nat -> F -> F) s,
+  (forall k, G k 0 = G k 0) ->
+  fold_right (fun kv acc => G (fst kv) (snd kv) + acc) 0
+    (filter (fun kv => negb (memN id (nth (fst kv) mus []))) (combine (seq s (length summands)) summands))
+  = fsumn (fun k => if negb (memN id (nth k mus [])) then G k (nth (k - s) summands 0) else 0) (seq s (length summands)).
+Proof.
+  intros mus summands id G; induction summands as [|a l IH]; intros s HG; [reflexivity|].
+  change (seq s (length (a :: l))) with (s :: seq (S s) (length l)).
+  change (combine (s :: seq (S s) (length l)) (a :: l)) with ((s, a) :: combine (seq (S s) (length l)) l).
+  rewrite filter_cons_eq. cbn [fst]. rewrite fsumn_cons, Nat.sub_diag. change (nth 0 (a :: l) 0) with a.
+  assert (E : fsumn (fun k => if negb (memN id (nth k mus [])) then G k (nth (k - s) (a :: l) 0) else 0) (seq (S s) (length l))
+            = fsumn (fun k => if negb (memN id (nth k mus [])) then G k (nth (k - S s) l 0) else 0) (seq (S s) (length l))).
+  { apply fsumn_ext_in. intros k Hk. apply in_seq in Hk. replace (k - s)%nat with (S (k - S s)) by lia. reflexivity. }
+  rewrite E, <- (IH (S s) HG).
+  destruct (negb (memN id (nth s mus []))); cbn [fold_right fst snd]; ring.
+Qed.
+
+(* exactly one member of a duplicate-free list equals p, if p is a member *)
+Lemma indicator_sum : forall (Q : list N) p (x : F), NoDup Q -> In p Q ->
+  fsumN K (fun id => if N.eqb p id then x else 0) Q = x.
+Proof.
+  induction Q as [|q Q IH]; intros p x Hnd Hin; [contradiction|]. inversion Hnd; subst.
+  cbn [fsumN fold_right]. fold (fsumN K (fun id => if N.eqb p id then x else 0) Q).
+  destruct (N.eqb p q) eqn:E.
+  - apply N.eqb_eq in E. subst q.
+    assert (Z : fsumN K (fun id => if N.eqb p id then x else 0) Q = 0).
+    { clear -H1 HK. induction Q as [|a Q IH]; [reflexivity|]. cbn [fsumN fold_right].
+      fold (fsumN K (fun id => if N.eqb p id then x else 0) Q).
+      destruct (N.eqb p a) eqn:E; [apply N.eqb_eq in E; subst; exfalso; apply H1; now left|].
+      rewrite IH by (intro; apply H1; now right). ring. }
+    rewrite Z. ring.
+  - destruct Hin as [->|Hin]; [rewrite N.eqb_refl in E; discriminate|]. rewrite IH by auto. ring.
+Qed.
+
+Lemma fsumN_fsumn_swap : forall (a : N -> nat -> F) (Q : list N) (ks : list nat),
+  fsumN K (fun id => fsumn (a id) ks) Q = fsumn (fun k => fsumN K (fun id => a id k) Q) ks.
+Proof.
+  intros a Q ks; induction Q as [|q Q IH].
+  - cbn [fsumN fold_right]. symmetry. apply fsumn_zero.
+  - cbn [fsumN fold_right]. fold (fsumN K (fun id => fsumn (a id) ks) Q). rewrite IH.
+    rewrite <- fsumn_add. apply fsumn_ext_in. intros k _. reflexivity.
+Qed.
+
+Lemma find_some_in : forall (f : N -> bool) l x, find f l = Some x -> In x l /\ f x = true.
+Proof. intros. now apply find_some. Qed.
+
+Theorem isn_to_additive_sums : forall mus (summands : list F) Q,
+  length summands = length mus -> NoDup Q ->
+  (forall k, (k < length mus)%nat -> exists id, In id Q /\ ~ In id (nth k mus [])) ->   (* every set misses a member: Q qualified *)
+  (forall id, In id Q -> exists k, (k < length mus)%nat /\ ~ In id (nth k mus [])) ->   (* no member lies in every set *)
+  exists f : N -> F,
+    (forall id, In id Q ->
+       isn_to_additive K mus (id, filter (fun kv => negb (memN id (nth (fst kv) mus []))) (combine (seq 0 (length mus)) summands)) Q = Some (f id)) /\
+    fsumN K f Q = fsum K summands.
+Proof.
+  intros mus summands Q Hlen Hnd Hcover Hnonempty.
+  set (sq := sortN (nodupN Q)).
+  assert (Hsq : forall id, In id sq <-> In id Q) by (intros; unfold sq; now rewrite in_sortN, in_nodupN).
+  assert (Hpiv : forall k, (k < length mus)%nat -> exists p, pivot_of mus sq k = Some p /\ In p Q /\ ~ In p (nth k mus [])).
+  { intros k Hk. unfold pivot_of. destruct (find _ sq) as [p|] eqn:E.
+    - apply find_some in E. destruct E as [Hin Hf]. exists p. split; [reflexivity|]. split; [now apply Hsq|].
+      intro Hc. apply memN_In in Hc. rewrite Hc in Hf. discriminate.
+    - exfalso. destruct (Hcover k Hk) as [id [Hid Hni]].
+      assert (Hx := find_none _ _ E id (proj2 (Hsq id) Hid)). cbn beta in Hx.
+      destruct (memN id (nth k mus [])) eqn:Em; [apply memN_In in Em; contradiction|discriminate]. }
+  exists (fun id => fsumn (fun k => if negb (memN id (nth k mus [])) then
+                        (match pivot_of mus sq k with Some p => if N.eqb p id then nth k summands 0 else 0 | None => 0 end) else 0)
+                      (seq 0 (length mus))).
+  split.
+  - intros id Hid. unfold isn_to_additive. cbn [fst snd].
+    assert (Hm : memN id Q = true) by now apply memN_In. rewrite Hm. cbn [negb].
+    set (chunks := filter (fun kv => negb (memN id (nth (fst kv) mus []))) (combine (seq 0 (length mus)) summands)).
+    assert (Hchunks_ne : chunks <> []).
+    { destruct (Hnonempty id Hid) as [k [Hk Hni]]. intro E.
+      assert (Hin : In (k, nth k summands 0) chunks).
+      { unfold chunks. apply filter_In. split.
+        - rewrite <- Hlen. rewrite <- (Nat.add_0_l k) at 1.
+          replace (nth k summands 0) with (nth k summands 0) by reflexivity.
+          apply (in_combine_seq_nth summands 0 k). lia.
+        - cbn [fst]. destruct (memN id (nth k mus [])) eqn:Em; [apply memN_In in Em; contradiction|reflexivity]. }
+      rewrite E in Hin. contradiction. }
+    destruct chunks as [|c0 cl] eqn:Ech; [congruence|]. rewrite <- Ech. clear Hchunks_ne.
+    fold sq.
+    rewrite (isn_fold_closed mus sq id chunks 0).
+    + f_equal. unfold chunks. rewrite <- Hlen.
+      rewrite (dealt_chunks_sum mus summands id
+                 (fun k v => match pivot_of mus sq k with Some p => if N.eqb p id then v else 0 | None => 0 end) 0 (fun _ => eq_refl)).
+      rewrite Hlen. transitivity (fsumn (fun k => if negb (memN id (nth k mus [])) then
+                        (match pivot_of mus sq k with Some p => if N.eqb p id then nth k summands 0 else 0 | None => 0 end) else 0)
+                      (seq 0 (length mus))); [|reflexivity].
+      rewrite <- Hlen. transitivity (0 + fsumn (fun k => if negb (memN id (nth k mus [])) then
+             match pivot_of mus sq k with Some p => if N.eqb p id then nth (k - 0) summands 0 else 0 | None => 0 end else 0) (seq 0 (length summands))); [reflexivity|].
+      transitivity (fsumn (fun k => if negb (memN id (nth k mus [])) then
+             match pivot_of mus sq k with Some p => if N.eqb p id then nth (k - 0) summands 0 else 0 | None => 0 end else 0) (seq 0 (length summands))); [ring|].
+      apply fsumn_ext_in. intros k _. now rewrite Nat.sub_0_r.
+    + intros [k v] Hin. unfold chunks in Hin. apply filter_In in Hin. destruct Hin as [Hin _].
+      apply in_combine_l in Hin. apply in_seq in Hin. cbn [fst].
+      destruct (Hpiv k ltac:(lia)) as [p [E _]]. rewrite E. discriminate.
+  - rewrite fsumN_fsumn_swap.
+    rewrite <- (fsumn_summands summands 0), Hlen.
+    apply fsumn_ext_in. intros k Hk. apply in_seq in Hk. rewrite Nat.sub_0_r.
+    destruct (Hpiv k ltac:(lia)) as [p [E [HpQ Hpni]]]. rewrite E.
+    transitivity (fsumN K (fun id => if N.eqb p id then nth k summands 0 else 0) Q);
+      [|apply (indicator_sum Q p (nth k summands 0) Hnd HpQ)].
+    apply fsumN_ext_in. intros id Hid.
+    destruct (N.eqb p id) eqn:Ep.
+    + apply N.eqb_eq in Ep. subst id.
+      destruct (memN p (nth k mus [])) eqn:Em; [apply memN_In in Em; contradiction|reflexivity].
+    + destruct (negb (memN id (nth k mus []))); reflexivity.
 Qed.
 
 End IsnProofs.
